@@ -152,15 +152,18 @@ def coq_properties(pid, extra_deps=()):
 # --------------------------------------------------------------------------- /repo builds
 
 def repo_build(kind="hooked", targets=("bloch", "bloch_update", "bloch_http")):
-    """(Re)build /repo's current working tree out of tree.  kind: hooked | asan."""
+    """(Re)build /repo's current working tree out of tree.  kind: hooked | asan | tsan | plain (no hooks)."""
     bdir = os.path.join(BUILD, kind)
-    flags = "-D%s" % GUARD
+    flags = "-D%s" % GUARD if kind != "tsan" else "-DBLOCH_VERIF_OFF"     # tsan: the real timer thread, no hooks
     btype = "Release"
     if kind == "asan":
         # signed overflow / out-of-range float->int conversions are outside what the documentation fixes; they are
         # neither a crash nor a memory error and are excluded (DESIGN.md, C12)
         flags += (" -O1 -g -fsanitize=address,undefined -fno-sanitize=signed-integer-overflow,float-cast-overflow"
                   " -fno-sanitize-recover=undefined -fno-omit-frame-pointer")
+        btype = "None"
+    if kind == "tsan":
+        flags += " -O1 -g -fsanitize=thread -fno-omit-frame-pointer"
         btype = "None"
     stamp = os.path.join(bdir, ".verif_flags")
     if os.path.exists(bdir) and (not os.path.exists(stamp) or open(stamp).read() != flags):
